@@ -32,11 +32,11 @@ static inline nstring opt_nstr_value_or(opt_nstr o, nstring dflt)
 { return o.has ? o.val : dflt; }
 static inline DimensionType Dimension_dimensionType(const Dimension *d)
 { return d->type; }
-static inline Dimension Dimension_asSampledDimension(const Dimension *d)
+static inline SampledDimension Dimension_asSampledDimension(const Dimension *d)
 { __CPROVER_assert(d->type == DimensionType_Sample, "asSampledDimension of a sampled descriptor"); return *d; }
-static inline Dimension Dimension_asRangeDimension(const Dimension *d)
+static inline RangeDimension Dimension_asRangeDimension(const Dimension *d)
 { __CPROVER_assert(d->type == DimensionType_Range, "asRangeDimension of a range descriptor"); return *d; }
-static inline Dimension Dimension_asDataFrameDimension(const Dimension *d)
+static inline DataFrameDimension Dimension_asDataFrameDimension(const Dimension *d)
 { __CPROVER_assert(d->type == DimensionType_DataFrame, "asDataFrameDimension of a data-frame descriptor"); return *d; }
 static inline opt_nstr SampledDimension_unit(const Dimension *d)
 { opt_nstr o; o.has = d->has_unit != 0; o.val = d->unit; return o; }
